@@ -224,7 +224,8 @@ def top_contract(cfg):
 
 # ---- native randomized streams on the real FIFO + faithful memory (bounded) -------------------------------------------------
 
-def _native_stream(seed, n=36, dw=8, pdw=16, pre=4, post=4, depth_bytes=16, p_in=0.7, p_out=0.5, p_mem=0.5, with_bypass=True):
+def _native_stream(seed, n=36, dw=8, pdw=16, pre=4, post=4, depth_bytes=16, p_in=0.7, p_out=0.5, p_mem=0.5, with_bypass=True,
+                   stall_first=0, cycles=1500):
     """real LiteDRAMFIFO on a faithful two-port memory (NativePortSpec: per-port order, a read accepted after a write
     command of the same address waits for that write's data), random producer / consumer / memory stalls"""
     import random
@@ -236,6 +237,7 @@ def _native_stream(seed, n=36, dw=8, pdw=16, pre=4, post=4, depth_bytes=16, p_in
             self.submodules.fifo = LiteDRAMFIFO(dw, 0, depth_bytes, wp, rp, with_bypass=with_bypass, pre_fifo_depth=pre, post_fifo_depth=post)
     h = H(); fifo = h.fifo
     mem = {}
+    hist = {}
     wpend = []          # (seq, addr) write commands accepted, data not yet taken
     seq = [0]
     sent, got = [], []
@@ -254,9 +256,13 @@ def _native_stream(seed, n=36, dw=8, pdw=16, pre=4, post=4, depth_bytes=16, p_in
                 yield
     def consumer():
         idle = 0
+        t_ = 0
         # stall phases
         while idle < 120:
-            rdy = 1 if rnd.random() < p_out else 0
+            t_ += 1
+            rdy = 1 if (t_ > stall_first and rnd.random() < p_out) else 0
+            if t_ <= stall_first:
+                idle = 0
             yield fifo.source.ready.eq(rdy)
             yield
             if rdy and (yield fifo.source.valid):
@@ -274,7 +280,9 @@ def _native_stream(seed, n=36, dw=8, pdw=16, pre=4, post=4, depth_bytes=16, p_in
                 a_ = (yield wp.cmd.addr)
                 pend.append(a_); seq[0] += 1; wpend.append((seq[0], a_))
             if dr and (yield wp.wdata.valid):
-                a = pend.pop(0); mem[a] = (yield wp.wdata.data); wpend.pop(0)
+                a = pend.pop(0); v_ = (yield wp.wdata.data); mem[a] = v_
+                sq_ = wpend.pop(0)[0]
+                hist.setdefault(a, []).append((sq_, v_))
     def rmem():
         pend = []
         while True:
@@ -282,8 +290,11 @@ def _native_stream(seed, n=36, dw=8, pdw=16, pre=4, post=4, depth_bytes=16, p_in
             yield rp.cmd.ready.eq(cr)
             ret = pend and rnd.random() < p_mem and not any(sq < pend[0][0] and a2 == pend[0][1] for sq, a2 in wpend)
             if ret:
-                a = pend.pop(0)[1]
-                yield rp.rdata.valid.eq(1); yield rp.rdata.data.eq(mem.get(a, 0))
+                sq_r, a = pend.pop(0)
+                # the content as of the read's acceptance: the last write accepted BEFORE it (later writes may already
+                # have landed when the data is returned)
+                older = [v for (sq_w, v) in hist.get(a, []) if sq_w < sq_r]
+                yield rp.rdata.valid.eq(1); yield rp.rdata.data.eq(older[-1] if older else 0)
             else:
                 yield rp.rdata.valid.eq(0)
             yield
@@ -292,7 +303,7 @@ def _native_stream(seed, n=36, dw=8, pdw=16, pre=4, post=4, depth_bytes=16, p_in
                 pend.append((seq[0], (yield rp.cmd.addr)))
     gens = [producer(), consumer()]
     import itertools
-    def bounded(g, cycles=1500):
+    def bounded(g, cycles=cycles):
         n = 0
         val = None
         while True:
@@ -310,7 +321,7 @@ def _native_stream(seed, n=36, dw=8, pdw=16, pre=4, post=4, depth_bytes=16, p_in
     def rm():
         yield from bounded(rmem())
     try:
-        run_simulation(h, [bounded(producer(), 1500), bounded(consumer(), 1500), wm(), rm()])
+        run_simulation(h, [bounded(producer(), cycles), bounded(consumer(), cycles), wm(), rm()])
     except Exception as e:
         return sent, got, repr(e)
     return sent, got, None
@@ -318,7 +329,10 @@ def _native_stream(seed, n=36, dw=8, pdw=16, pre=4, post=4, depth_bytes=16, p_in
 
 
 NATIVE_SCENARIOS = [dict(dw=16, with_bypass=False, seeds=[0, 1]), dict(dw=16, with_bypass=True, seeds=[0, 1, 2]),
-                    dict(dw=8, with_bypass=True, seeds=[0, 1, 2, 3])]
+                    dict(dw=8, with_bypass=True, seeds=[0, 1, 2, 3]),
+                    # everything filled first (consumer stalled), then an irregular consumer: DRAM depth 16 / 48 words
+                    dict(dw=16, with_bypass=True, seeds=[0, 1], deep=dict(n=110, depth_bytes=32, stall_first=260, p_out=0.35, p_in=0.9, p_mem=0.8, cycles=2500)),
+                    dict(dw=16, with_bypass=True, seeds=[0], deep=dict(n=140, depth_bytes=96, stall_first=400, p_out=0.35, p_in=0.9, p_mem=0.8, cycles=3500))]
 
 
 def native_streams_task(cfg, tier):
@@ -327,17 +341,18 @@ def native_streams_task(cfg, tier):
     res = []
     for seed in cfg["seeds"]:
         t0 = time.time()
-        sent, got, exc = _native_stream(seed, dw=cfg["dw"], with_bypass=cfg["with_bypass"])
+        deep = cfg.get("deep") or {}
+        sent, got, exc = _native_stream(seed, dw=cfg["dw"], with_bypass=cfg["with_bypass"], **deep)
         ok = exc is None and got == sent
         k = next((i for i in range(min(len(sent), len(got))) if sent[i] != got[i]), min(len(sent), len(got)))
-        oid = "C13/LiteDRAMFIFO.native[data_width=%d,port=16,with_bypass=%s,seed=%d]/bounded/output_stream_equals_input_stream" % (
-            cfg["dw"], cfg["with_bypass"], seed)
+        oid = "C13/LiteDRAMFIFO.native[data_width=%d,port=16,with_bypass=%s,seed=%d%s]/bounded/output_stream_equals_input_stream" % (
+            cfg["dw"], cfg["with_bypass"], seed, (",depth_words=%d,fill_first" % (deep["depth_bytes"] // 2)) if deep else "")
         r = {"id": oid, "kind": "bounded", "status": "bounded-ok" if ok else "failed", "seconds": round(time.time() - t0, 2),
              "backend": "native-simulation(migen)", "depth": len(sent)}
         if not ok:
             path = replay_path("C13", oid)
             json.dump({"property": "C13", "obligation": oid, "module": "contracts.c13", "kind": "pyargs",
-                       "args": dict(seed=seed, dw=cfg["dw"], with_bypass=cfg["with_bypass"])}, open(path, "w"), indent=1)
+                       "args": dict(seed=seed, dw=cfg["dw"], with_bypass=cfg["with_bypass"], deep=deep)}, open(path, "w"), indent=1)
             r.update(replay=path, reproduced=True, witness=dict(first_difference_at=k, sent=sent[max(0, k - 2):k + 4], received=got[max(0, k - 2):k + 4],
                                                                 words_sent=len(sent), words_received=len(got), exception=exc))
         res.append(r)
@@ -346,7 +361,7 @@ def native_streams_task(cfg, tier):
 
 def replay(rp):
     a = rp["args"]
-    sent, got, exc = _native_stream(a["seed"], dw=a["dw"], with_bypass=a["with_bypass"])
+    sent, got, exc = _native_stream(a["seed"], dw=a["dw"], with_bypass=a["with_bypass"], **(a.get("deep") or {}))
     bad = exc is not None or got != sent
     print("replay %s: %s (sent %d words, received %d)" % (rp["obligation"], "VIOLATED on current tree" if bad else "not violated on current tree", len(sent), len(got)))
     return 1 if bad else 0
